@@ -684,6 +684,15 @@ fn gen_float(rng: &mut Rng, deg: usize, dim: usize) -> FloatCurve {
         let amp = 2f64.powi(-(rng.range_i64(0, 6) as i32));
         let off: Vec<f64> = (0..dim).map(|_| 2f64.powi(rng.range_i64(20, 30) as i32) * if rng.bool() { 1.0 } else { -1.0 }).collect();
         ((0..=deg).map(|_| (0..dim).map(|d| off[d] + amp * rng.range_i64(-16, 16) as f64 / 4.0).collect()).collect(), "far_from_origin")
+    } else if sel < 3 {
+        // (added after the round-8 / round-9 observations) the same generic curves in a small unit: every
+        // coordinate times 2^-k, k = 20..28 (1e-6 .. 4e-9) -- ordinary normal numbers, nine orders of
+        // magnitude above the smallest one.  Where the extrema are does not depend on the unit, and the
+        // curve is judged relative to its own size.  An absolute test on a quantity that scales with the
+        // *square* of the coordinates (the discriminant of the derivative) goes wrong here long before
+        // any coordinate is near the type's epsilon.
+        let unit = 2f64.powi(-(rng.range_i64(20, 28) as i32));
+        ((0..=deg).map(|_| (0..dim).map(|_| rng.f64_in(-10.0, 10.0) * unit).collect()).collect(), "small_unit")
     } else if sel < 11 {
         ((0..=deg).map(|_| (0..dim).map(|_| rng.f64_in(-10.0, 10.0)).collect()).collect(), "uniform")
     } else if sel < 14 {
@@ -701,7 +710,8 @@ fn gen_float(rng: &mut Rng, deg: usize, dim: usize) -> FloatCurve {
         }
         ((0..=deg).map(|kk| (0..dim).map(|d| cols[d][kk]).collect()).collect(), "degree_reduced_integers")
     };
-    let scale = pts.iter().flatten().fold(1.0f64, |m, x| m.max(x.abs()));
+    let floor = if kind == "small_unit" { 0.0f64 } else { 1.0f64 };
+    let scale = pts.iter().flatten().fold(floor, |m, x| m.max(x.abs()));
     FloatCurve { pts, scale, kind }
 }
 fn axis_ctrl(pts: &[Vec<f64>], ax: usize) -> Vec<f64> {
